@@ -308,15 +308,26 @@ impl Database {
         let column_types: Vec<crate::records::types::DataType> =
             columns.iter().map(|c| c.data_type()).collect();
 
-        let insert_col_indices: Option<Vec<usize>> = insert.columns.map(|cols| {
-            cols.iter()
-                .filter_map(|col_name| {
-                    columns
+        let insert_col_indices: Option<Vec<usize>> = match insert.columns {
+            Some(cols) => {
+                let mut indices = Vec::with_capacity(cols.len());
+                for col_name in cols.iter() {
+                    let idx = columns
                         .iter()
                         .position(|c| c.name().eq_ignore_ascii_case(col_name))
-                })
-                .collect()
-        });
+                        .ok_or_else(|| {
+                            eyre::eyre!(
+                                "column '{}' not found in table '{}'",
+                                col_name,
+                                table_name
+                            )
+                        })?;
+                    indices.push(idx);
+                }
+                Some(indices)
+            }
+            None => None,
+        };
 
         let auto_increment_col_idx: Option<usize> = columns
             .iter()
